@@ -568,7 +568,8 @@ def cfg_line(facts, seed, silent=True, ros=(1, 1), tz=False, allowed=None) -> st
     return (f"cfg {seed} {int(silent)} {ros[0]} {ros[1]} {int(tz)} {int(bool(facts.get('print_in_try')))} "
             f"{int(bool(facts.get('dispatch_in_try')))} {ml if ml is not None else 0} {al} "
             f"{int(bool(facts.get('str_guarded')))} " +
-            " ".join(str(int(bool((facts.get('box') or {}).get(k)))) for k in ("value", "text", "builds")))
+            " ".join(str(int(bool((facts.get('box') or {}).get(k)))) for k in ("value", "text", "builds")) +
+            f" {int(bool(facts.get('text_intact', True)))}")
 
 
 # --------------------------------------------------------------------------------------------------------------
